@@ -6,6 +6,7 @@ package model
 
 import (
 	"fmt"
+	"math"
 
 	"github.com/basecomplextech/spec/internal/lang/syntax"
 )
@@ -38,7 +39,7 @@ func parseEnum(pkg *Package, file *File, def *Definition, penum *syntax.Enum) (*
 	// Check zero
 	_, ok := e.ValueNumbers[0]
 	if !ok {
-		return nil, fmt.Errorf("zero enum value required")
+		return nil, fmt.Errorf("%v: zero enum value required", def.Name)
 	}
 	return e, nil
 }
@@ -58,6 +59,12 @@ func (e *Enum) parseValue(pval *syntax.EnumValue) error {
 	val, err := parseEnumValue(e, pval)
 	if err != nil {
 		return fmt.Errorf("%v.%v: %w", e.Def.Name, pval.Name, err)
+	}
+
+	// Check range, enums are encoded as int32
+	if val.Number < math.MinInt32 || val.Number > math.MaxInt32 {
+		return fmt.Errorf("%v.%v: enum value number out of range, number=%v",
+			e.Def.Name, val.Name, val.Number)
 	}
 
 	// Check name
